@@ -935,13 +935,13 @@ def f13_cells():
 
 def corpus(seed, tier):
     quick = tier == "quick"
-    n3 = 150 if quick else 1200
-    n7 = 60 if quick else 500
-    n12 = 80 if quick else 800
-    progs = f1_cells() + f2_cells() + f3_random(seed, n3) + f4_cells() + f5_cells(seed, 8 if quick else 60) + f6_cells() \
+    n3 = 150 if quick else 4000
+    n7 = 60 if quick else 2000
+    n12 = 80 if quick else 2400
+    progs = f1_cells() + f2_cells() + f3_random(seed, n3) + f4_cells() + f5_cells(seed, 8 if quick else 240) + f6_cells() \
         + f7_cells() + f10_cells() + f11_cells() + f3_random(seed + 1000, n7, depth=2, effects=True, fam="F7R") \
-        + f8_cells(seed, 40 if quick else 400) + f9_cells() + f12_random(seed, n12, False) + f12_random(seed, n12 // 2, True) \
-        + f6_random(seed, 60 if quick else 600) + f13_cells()
+        + f8_cells(seed, 40 if quick else 1600) + f9_cells() + f12_random(seed, n12, False) + f12_random(seed, n12 // 2, True) \
+        + f6_random(seed, 60 if quick else 2400) + f13_cells()
     if not quick:
-        progs += f3_random(seed + 5000, 300, depth=4, fam="F3")
+        progs += f3_random(seed + 5000, 1200, depth=4, fam="F3")
     return progs
